@@ -1,8 +1,9 @@
 (* C07 -- Control output is complete, minimal and honours the user's constraints
 
    Model: Control.find_drivers (size classes in ascending order, supersets of found key sets skipped).
-   PARTIAL: exactness of the succession list (all paths of the target-directed expansion x all motif choices)
-   is decided by the correspondence run against Control.successions, not by a theorem.
+   successions_spec / successions_nodup: the successions are exactly the chains of reduced motifs along all root
+   paths to the end nodes, one motif per edge, each once; target_expansion_post: what the target-directed
+   expansion expands.
 
    This file contains only restatements closed by `exact` (statements produced by Coq's own
    `Check` of the library lemma) plus non-vacuity Examples, each followed by Print Assumptions. *)
@@ -10,7 +11,7 @@ From Coq Require Import List Bool Arith NArith Lia Relations Permutation.
 Import ListNotations.
 From BB Require Import BN Brute SpaceFacts TrapFacts PercolateFacts AttractorFacts Diagram Invariants Checks Filter
   Strict PetriNet Control Meta FilterFacts PetriNetFacts TrappistFacts DiagramStruct DiagramSem1 DiagramCache
-  DiagramDepth DiagramComplete Termination ControlFacts MetaFacts Candidates StrictFacts MinExpandFacts CandidatesFacts SymbolicTest SymbolicTestFacts.
+  DiagramDepth DiagramComplete Termination ControlFacts MetaFacts Candidates StrictFacts MinExpandFacts CandidatesFacts SymbolicTest SymbolicTestFacts Signed ReductionFacts ControlFacts2 Main.
 
 (* forcing, allowed variables only, within the size bound *)
 Theorem C07_find_drivers_sound : forall (N : net) (ts : list (option bool)) (all_strategy : bool) (assume : list (option bool)) (maxd : option nat) (forbidden : list nat) (drv : space), length ts = nvars N -> length assume = nvars N -> In drv (find_drivers N ts all_strategy assume maxd forbidden) -> length drv = nvars N /\ forces_ldoi N drv assume ts = true /\ (forall v : nat, In v (dom drv) -> ~ In v forbidden) /\ length (dom drv) <= match maxd with | Some k => k | None => length (vars_fixed (free_of ts assume)) end /\ (all_strategy = false -> forall (v : nat) (b : bool), nth v drv None = Some b -> nth v (free_of ts assume) None = Some b).
@@ -27,7 +28,23 @@ Proof. exact find_drivers_minimal. Qed.
 Theorem C07_subsets_of_size_spec : forall (k : nat) (l s : list nat), In s (subsets_of_size k l) <-> sublist s l /\ length s = k.
 Proof. exact subsets_of_size_spec. Qed.
 
+Theorem C07_successions_spec : forall (N : net) (d : sd) (target : space) (succ : list space), SWF N d -> EdgeStrict d -> In succ (successions d target) <-> (exists (s : nat) (es : list edge), end_node d target s /\ s <> 0 /\ epath d 0 s es /\ choice d es succ) \/ succ = [] /\ (exists s : nat, s < size d /\ ~ lava_below d target s) /\ ~ (exists (s : nat) (es : list edge) (succ' : list space), end_node d target s /\ s <> 0 /\ epath d 0 s es /\ choice d es succ').
+Proof. exact successions_spec. Qed.
+
+Theorem C07_successions_nodup : forall (N : net) (d : sd) (target : space), SWF N d -> EdgeStrict d -> (forall e : edge, In e (sd_edges d) -> NoDup (map (fun m : space => reduce_motif m (n_space (get d (e_src e)))) (e_motifs e))) -> NoDup (successions d target).
+Proof. exact successions_nodup. Qed.
+
+Theorem C07_target_expansion_post : forall (fuel : nat) (N : net) (cfg : config) (target : list (option bool)) (d' : sd), 1 <= max_motifs cfg -> length target = nvars N -> expand_to_target fuel N cfg (init N) target None = (d', RBool true) -> forall i : nat, i < size d' -> n_exp (get d' i) = true <-> intersect (n_space (get d' i)) target <> None /\ ~ (subspace (n_space (get d' i)) target = true /\ n_space (get d' i) <> target).
+Proof. exact target_expansion_post. Qed.
+
+Theorem C07_reaches_lava_spec : forall (N : net) (d : sd) (target : space) (x : nat), SWF N d -> EdgeStrict d -> x < size d -> reaches_lava d target x = true <-> lava_below d target x.
+Proof. exact reaches_lava_spec. Qed.
+
 Print Assumptions C07_find_drivers_sound.
 Print Assumptions C07_find_drivers_complete.
 Print Assumptions C07_find_drivers_minimal.
 Print Assumptions C07_subsets_of_size_spec.
+Print Assumptions C07_successions_spec.
+Print Assumptions C07_successions_nodup.
+Print Assumptions C07_target_expansion_post.
+Print Assumptions C07_reaches_lava_spec.
